@@ -2,15 +2,23 @@
 Helper lemmas for property C11 (`Props/C11.lean`): bookkeeping of `FreeEnergy.tracePhase`
 (`Model.Tracer.runDirection`, `tracePhase`, `listMin`, `listMax`) and the coarse bracketing loop of
 `Thermodynamics.findCriticalTemperature` (`coarseLoop`, `criticalBracket`).
+
+`runDirection` stores the temperatures of the longest accepted prefix of the step records
+(`acceptedPrefix`, unchanged by the replace rule) with `push`: a temperature within `1e-8·dT` of the last
+stored one REPLACES it, any other is appended (`pushAll`).  Consequences used by the properties: the
+stored list is a sublist of "everything appended", it ends at the last accepted temperature, only the last
+stored point is ever touched, its length is counted by `appended`, and for monotone integrator times
+consecutive nodes are at least `1e-8·dT` apart (`pushAll_sep`).
 -/
 import Mathlib.Tactic
+import Mathlib.Data.List.Chain
 import WallGoVerif.Model.Tracer
 
 namespace Lemmas.Tracer
 
 open Model.Tracer
 
-/-! ## `runDirection` = append the longest accepted prefix -/
+/-! ## `runDirection` = store (append or replace) the longest accepted prefix -/
 
 /-- the loop body does NOT break on record `s` when the previously stored temperature is `last`:
 the minimum still exists, the step is not tiny, and `t` differs from the stored temperature. -/
@@ -18,25 +26,148 @@ def accepted (s : Step) (last : Option Rat) : Bool :=
   s.eigPos && !s.tiny && !(last == some s.t)
 
 /-- the longest prefix of `steps` all of whose records are accepted (each one relative to the
-temperature stored just before it; `last` is the temperature stored before the first record). -/
+temperature stored just before it; `last` is the temperature stored before the first record).
+The replace rule does not change this notion: whether a record is appended or replaces the last
+stored point, the temperature stored last afterwards is its `t`. -/
 def acceptedPrefix : List Step → Option Rat → List Step
   | [], _ => []
   | s :: rest, last => if accepted s last then s :: acceptedPrefix rest (some s.t) else []
 
-/-- temperature stored last, after the records `P` have been appended to a list ending in `last` -/
+/-- temperature stored last, after the records `P` have been stored in a list ending in `last` -/
 def lastT (last : Option Rat) (P : List Step) : Option Rat :=
   match P.getLast? with
   | some s => some s.t
   | none => last
 
-theorem runDirection_eq (steps : List Step) (acc : List Rat) :
-    runDirection steps acc = acc ++ (acceptedPrefix steps acc.getLast?).map Step.t := by
+/-- core `Rat.abs` (used by the model, which imports nothing) is Mathlib's `|·|` -/
+theorem ratAbs_eq (x : Rat) : x.abs = |x| := by
+  unfold Rat.abs
+  split
+  · exact (abs_of_nonneg ‹_›).symm
+  · exact (abs_of_neg (not_le.1 ‹_›)).symm
+
+/-- store one accepted temperature `x` in `TList = acc`: it REPLACES the last stored temperature if it
+lies within the rounding distance `1e-8·dT` of it, otherwise it is appended (also when `acc` is empty). -/
+def push (dT : Rat) (acc : List Rat) (x : Rat) : List Rat :=
+  match acc.getLast? with
+  | some last => if |x - last| < dT / 100000000 then acc.dropLast ++ [x] else acc ++ [x]
+  | none => acc ++ [x]
+
+/-- store the temperatures `xs` one after the other -/
+def pushAll (dT : Rat) (acc : List Rat) (xs : List Rat) : List Rat := xs.foldl (push dT) acc
+
+@[simp] theorem pushAll_nil (dT : Rat) (acc : List Rat) : pushAll dT acc [] = acc := rfl
+@[simp] theorem pushAll_cons (dT : Rat) (acc : List Rat) (x : Rat) (xs : List Rat) :
+    pushAll dT acc (x :: xs) = pushAll dT (push dT acc x) xs := rfl
+
+theorem push_nil (dT x : Rat) : push dT [] x = [x] := rfl
+
+theorem push_concat (dT : Rat) (init : List Rat) (l x : Rat) :
+    push dT (init ++ [l]) x =
+      if |x - l| < dT / 100000000 then init ++ [x] else init ++ [l] ++ [x] := by
+  unfold push
+  simp only [List.getLast?_concat, List.dropLast_concat]
+
+/-- every list is `[]` or `init ++ [l]` with `l` its last element -/
+theorem nil_or_concat (acc : List Rat) :
+    acc = [] ∨ ∃ init l, acc = init ++ [l] ∧ acc.getLast? = some l ∧ acc.dropLast = init := by
+  rcases List.eq_nil_or_concat acc with rfl | ⟨init, l, rfl⟩
+  · exact Or.inl rfl
+  · exact Or.inr ⟨init, l, by simp, by simp, by simp⟩
+
+@[simp] theorem getLast?_push (dT : Rat) (acc : List Rat) (x : Rat) :
+    (push dT acc x).getLast? = some x := by
+  rcases nil_or_concat acc with rfl | ⟨init, l, rfl, -, -⟩
+  · rfl
+  · rw [push_concat]; split <;> simp
+
+theorem push_sublist (dT : Rat) (acc : List Rat) (x : Rat) : (push dT acc x).Sublist (acc ++ [x]) := by
+  rcases nil_or_concat acc with rfl | ⟨init, l, rfl, -, -⟩
+  · exact List.Sublist.refl _
+  · rw [push_concat]; split
+    · exact ((List.sublist_append_left init [l]).append (List.Sublist.refl [x]))
+    · exact List.Sublist.refl _
+
+/-- the stored list is a sublist of "everything appended": at most one node per accepted record, in order -/
+theorem pushAll_sublist (dT : Rat) (acc xs : List Rat) : (pushAll dT acc xs).Sublist (acc ++ xs) := by
+  induction xs generalizing acc with
+  | nil => simp
+  | cons x xs ih =>
+    rw [pushAll_cons]
+    refine (ih _).trans ?_
+    have := (push_sublist dT acc x).append (List.Sublist.refl xs)
+    simpa using this
+
+theorem mem_pushAll {dT : Rat} {acc xs : List Rat} {a : Rat} (h : a ∈ pushAll dT acc xs) :
+    a ∈ acc ∨ a ∈ xs := List.mem_append.1 ((pushAll_sublist dT acc xs).subset h)
+
+/-- the temperature stored last is the last one offered -/
+theorem getLast?_pushAll (dT : Rat) (acc xs : List Rat) :
+    (pushAll dT acc xs).getLast? = xs.getLast?.or acc.getLast? := by
+  induction xs generalizing acc with
+  | nil => simp
+  | cons x xs ih =>
+    rw [pushAll_cons, ih, getLast?_push]
+    cases xs with
+    | nil => simp
+    | cons y ys =>
+      rw [List.getLast?_cons_cons]
+      cases h : (y :: ys).getLast? with
+      | none => simp at h
+      | some z => simp
+
+theorem dropLast_prefix_push (dT : Rat) (acc : List Rat) (x : Rat) :
+    acc.dropLast <+: (push dT acc x).dropLast := by
+  rcases nil_or_concat acc with rfl | ⟨init, l, rfl, -, -⟩
+  · simp
+  · rw [push_concat]; split
+    · simp
+    · rw [List.dropLast_concat, List.dropLast_concat]; exact List.prefix_append _ _
+
+/-- the replace rule only ever touches the LAST stored point: everything before it stays, in place -/
+theorem dropLast_prefix_pushAll (dT : Rat) (acc xs : List Rat) :
+    acc.dropLast <+: pushAll dT acc xs := by
+  induction xs generalizing acc with
+  | nil => exact List.dropLast_prefix _
+  | cons x xs ih =>
+    rw [pushAll_cons]
+    exact (dropLast_prefix_push dT acc x).trans (ih _)
+
+theorem runDirection_cons_of_accepted (s : Step) (rest : List Step) (acc : List Rat) (dT : Rat)
+    (h : accepted s acc.getLast? = true) :
+    runDirection (s :: rest) acc dT = runDirection rest (push dT acc s.t) dT := by
+  unfold accepted at h
+  simp only [Bool.and_eq_true, Bool.not_eq_true', beq_eq_false_iff_ne, ne_eq] at h
+  obtain ⟨⟨h1, h2⟩, h3⟩ := h
+  have h3' : (acc.getLast? == some s.t) = false := by simpa using h3
+  rw [runDirection]
+  simp only [h1, h2, h3', Bool.not_true, Bool.false_eq_true, if_false, Bool.or_self]
+  unfold push
+  cases acc.getLast? with
+  | none => rfl
+  | some l => simp only [ratAbs_eq]; split <;> rfl
+
+theorem runDirection_cons_of_not_accepted (s : Step) (rest : List Step) (acc : List Rat) (dT : Rat)
+    (h : accepted s acc.getLast? = false) :
+    runDirection (s :: rest) acc dT = acc := by
+  unfold accepted at h
+  rw [runDirection]
+  cases h1 : s.eigPos <;> cases h2 : s.tiny <;> cases h3 : (acc.getLast? == some s.t) <;>
+    simp_all
+
+theorem runDirection_eq (steps : List Step) (acc : List Rat) (dT : Rat) :
+    runDirection steps acc dT = pushAll dT acc ((acceptedPrefix steps acc.getLast?).map Step.t) := by
   induction steps generalizing acc with
   | nil => simp [runDirection, acceptedPrefix]
   | cons s rest ih =>
-    unfold runDirection acceptedPrefix accepted
-    cases h1 : s.eigPos <;> cases h2 : s.tiny <;> cases h3 : (acc.getLast? == some s.t) <;>
-      simp [ih]
+    unfold acceptedPrefix
+    cases h : accepted s acc.getLast? with
+    | true =>
+      rw [runDirection_cons_of_accepted _ _ _ _ h, ih]
+      simp
+    | false =>
+      rw [runDirection_cons_of_not_accepted _ _ _ _ h]
+      simp
 
 theorem acceptedPrefix_prefix (steps : List Step) (last : Option Rat) :
     acceptedPrefix steps last <+: steps := by
@@ -105,6 +236,174 @@ theorem acceptedPrefix_stops (pre : List Step) (s : Step) (post : List Step) (la
     split
     · exact (List.prefix_cons_inj a).2 (ih _)
     · exact List.nil_prefix
+
+/-! ## how many nodes are stored -/
+
+/-- number of the temperatures `xs` that are APPENDED (the others replace the node stored before them),
+when the temperature stored before the first one is `last` -/
+def appended (dT : Rat) : Option Rat → List Rat → Nat
+  | _, [] => 0
+  | none, x :: xs => 1 + appended dT (some x) xs
+  | some l, x :: xs => (if |x - l| < dT / 100000000 then 0 else 1) + appended dT (some x) xs
+
+theorem length_push (dT : Rat) (acc : List Rat) (x : Rat) :
+    (push dT acc x).length = acc.length + appended dT acc.getLast? [x] := by
+  rcases nil_or_concat acc with rfl | ⟨init, l, rfl, -, -⟩
+  · rfl
+  · rw [push_concat, List.getLast?_concat]
+    unfold appended appended
+    split <;> simp
+
+theorem appended_cons (dT : Rat) (last : Option Rat) (x : Rat) (xs : List Rat) :
+    appended dT last (x :: xs) = appended dT last [x] + appended dT (some x) xs := by
+  cases last <;> simp [appended]
+
+theorem length_pushAll (dT : Rat) (acc xs : List Rat) :
+    (pushAll dT acc xs).length = acc.length + appended dT acc.getLast? xs := by
+  induction xs generalizing acc with
+  | nil => simp [appended]
+  | cons x xs ih =>
+    rw [pushAll_cons, ih, getLast?_push, length_push, appended_cons dT _ x xs]; omega
+
+theorem appended_le_length (dT : Rat) (last : Option Rat) (xs : List Rat) :
+    appended dT last xs ≤ xs.length := by
+  induction xs generalizing last with
+  | nil => simp [appended]
+  | cons x xs ih =>
+    rw [appended_cons]
+    have := ih (some x)
+    have h1 : appended dT last [x] ≤ 1 := by
+      cases last with
+      | none => simp [appended]
+      | some l => unfold appended appended; split <;> simp
+    simp only [List.length_cons]; omega
+
+/-- nothing is appended after `l` iff the temperatures form a chain of rounding steps starting at `l` -/
+theorem appended_some_eq_zero_iff (dT l : Rat) (xs : List Rat) :
+    appended dT (some l) xs = 0 ↔ (l :: xs).IsChain (fun a b => |b - a| < dT / 100000000) := by
+  induction xs generalizing l with
+  | nil => simp [appended]
+  | cons x xs ih =>
+    rw [List.isChain_cons_cons, ← ih, appended]
+    split <;> simp_all
+
+/-- at most one node is stored in an empty list iff the temperatures form a chain of rounding steps -/
+theorem appended_none_le_one_iff (dT : Rat) (xs : List Rat) :
+    appended dT none xs ≤ 1 ↔ xs.IsChain (fun a b => |b - a| < dT / 100000000) := by
+  cases xs with
+  | nil => simp [appended]
+  | cons x xs =>
+    rw [← appended_some_eq_zero_iff, appended]; omega
+
+/-- without rounding steps every accepted temperature is appended -/
+theorem appended_eq_length_of_far (dT : Rat) (last : Option Rat) (xs : List Rat)
+    (h : (last.toList ++ xs).IsChain (fun a b => dT / 100000000 ≤ |b - a|)) :
+    appended dT last xs = xs.length := by
+  induction xs generalizing last with
+  | nil => simp [appended]
+  | cons x xs ih =>
+    have ht : (x :: xs).IsChain (fun a b => dT / 100000000 ≤ |b - a|) := h.right_of_append
+    have := ih (some x) (by simpa using ht)
+    cases last with
+    | none => simp [appended, this]; omega
+    | some l =>
+      have hlx : dT / 100000000 ≤ |x - l| := by
+        simp only [Option.toList_some, List.singleton_append] at h
+        exact (List.isChain_cons_cons.1 h).1
+      simp [appended, this, not_lt.2 hlx]; omega
+
+/-- a list that is at the same time a chain of rounding steps and a chain of non-rounding steps has at
+most one element -/
+theorem length_le_one_of_near_far (dT : Rat) (l : List Rat)
+    (hn : l.IsChain (fun a b => |b - a| < dT / 100000000))
+    (hf : l.IsChain (fun a b => dT / 100000000 ≤ |b - a|)) : l.length ≤ 1 := by
+  match l, hn, hf with
+  | [], _, _ => simp
+  | [_], _, _ => simp
+  | a :: b :: t, hn, hf =>
+    exact absurd (List.isChain_cons_cons.1 hn).1 (not_lt.2 (List.isChain_cons_cons.1 hf).1)
+
+/-- without rounding steps `push` is `append`: the pre-replace-rule behaviour -/
+theorem pushAll_eq_append_of_far (dT : Rat) (acc xs : List Rat)
+    (h : (acc.getLast?.toList ++ xs).IsChain (fun a b => dT / 100000000 ≤ |b - a|)) :
+    pushAll dT acc xs = acc ++ xs := by
+  induction xs generalizing acc with
+  | nil => simp
+  | cons x xs ih =>
+    have hp : push dT acc x = acc ++ [x] := by
+      rcases nil_or_concat acc with rfl | ⟨init, l, rfl, -, -⟩
+      · rfl
+      · rw [push_concat]
+        simp only [List.getLast?_concat, Option.toList_some, List.singleton_append] at h
+        rw [if_neg (not_lt.2 (List.isChain_cons_cons.1 h).1)]
+    rw [pushAll_cons, hp, ih]
+    · simp
+    · simpa using h.right_of_append
+
+/-! ## no two almost coincident nodes -/
+
+/-- separation relation in the direction of travel `σ = ±1`: the next node lies at least `1e-8·dT`
+further in that direction -/
+def Sep (dT σ : Rat) (a b : Rat) : Prop := dT / 100000000 ≤ σ * (b - a)
+
+theorem push_sep (dT σ : Rat) (hσ : σ = 1 ∨ σ = -1) (acc : List Rat) (x : Rat)
+    (hc : acc.IsChain (Sep dT σ)) (hl : ∀ l, acc.getLast? = some l → 0 < σ * (x - l)) :
+    (push dT acc x).IsChain (Sep dT σ) := by
+  rcases nil_or_concat acc with rfl | ⟨init, l, rfl, hlast, -⟩
+  · exact List.isChain_singleton _
+  · have hlx := hl l hlast
+    have habs : |x - l| = σ * (x - l) := by
+      rcases hσ with rfl | rfl
+      · rw [one_mul] at hlx ⊢; exact abs_of_pos hlx
+      · rw [abs_of_neg (by linarith)]; ring
+    rw [push_concat]
+    obtain ⟨hi, -, hil⟩ := List.isChain_append.1 hc
+    split
+    · refine List.isChain_append.2 ⟨hi, List.isChain_singleton _, fun p hp y hy => ?_⟩
+      have h1 : Sep dT σ p l := hil p hp l (by simp)
+      simp only [List.head?_cons, Option.mem_def, Option.some.injEq] at hy
+      subst hy
+      unfold Sep at h1 ⊢
+      nlinarith
+    · rename_i hfar
+      refine List.isChain_append.2 ⟨hc, List.isChain_singleton _, fun p hp y hy => ?_⟩
+      simp only [List.getLast?_concat, Option.mem_def, Option.some.injEq] at hp
+      simp only [List.head?_cons, Option.mem_def, Option.some.injEq] at hy
+      subst hp hy
+      unfold Sep
+      rw [← habs]; exact not_lt.1 hfar
+
+/-- **separation invariant.** If the stored list is separated in the direction of travel, every offered
+temperature lies beyond the last stored one and the offered temperatures are strictly monotone in that
+direction, then ALL consecutive nodes of the result — including the last pair, also after a
+replacement — are at least `1e-8·dT` apart. -/
+theorem pushAll_sep (dT σ : Rat) (hσ : σ = 1 ∨ σ = -1) (acc xs : List Rat)
+    (hc : acc.IsChain (Sep dT σ))
+    (hl : ∀ l, acc.getLast? = some l → ∀ x ∈ xs, 0 < σ * (x - l))
+    (hx : xs.Pairwise (fun a b => 0 < σ * (b - a))) :
+    (pushAll dT acc xs).IsChain (Sep dT σ) := by
+  induction xs generalizing acc with
+  | nil => exact hc
+  | cons x xs ih =>
+    rw [pushAll_cons]
+    obtain ⟨hx1, hx2⟩ := List.pairwise_cons.1 hx
+    refine ih _ (push_sep dT σ hσ acc x hc (fun l h => hl l h x List.mem_cons_self)) ?_ hx2
+    intro l h y hy
+    rw [getLast?_push] at h
+    cases h
+    exact hx1 y hy
+
+/-- `runDirection` keeps the separation invariant (direction sign `σ = ±1`, see `pushAll_sep`) -/
+theorem runDirection_sep (dT σ : Rat) (hσ : σ = 1 ∨ σ = -1) (steps : List Step) (acc : List Rat)
+    (hc : acc.IsChain (Sep dT σ))
+    (hl : ∀ l, acc.getLast? = some l → ∀ s ∈ steps, 0 < σ * (s.t - l))
+    (hx : (steps.map Step.t).Pairwise (fun a b => 0 < σ * (b - a))) :
+    (runDirection steps acc dT).IsChain (Sep dT σ) := by
+  rw [runDirection_eq]
+  refine pushAll_sep dT σ hσ acc _ hc (fun l h x hx' => ?_)
+    (hx.sublist ((acceptedPrefix_prefix steps _).map Step.t).sublist)
+  obtain ⟨s, hs, rfl⟩ := List.mem_map.1 hx'
+  exact hl l h s ((acceptedPrefix_prefix steps _).subset hs)
 
 /-! ## `listMin` / `listMax` -/
 
@@ -247,27 +546,33 @@ theorem listMax_sorted (l : List Rat) (d : Rat) (hne : l ≠ []) (h : l.Pairwise
 
 /-! ## `tracePhase` in terms of the accepted prefixes -/
 
-/-- temperatures appended in the upward direction (after `T0`) -/
+/-- temperatures of the accepted records of the upward direction (offered after `T0`) -/
 def upTimes (T0 : Rat) (up : List Step) : List Rat := (acceptedPrefix up (some T0)).map Step.t
-/-- temperatures stored in the downward direction (`TList` starts empty) -/
+/-- temperatures of the accepted records of the downward direction (`TList` starts empty) -/
 def downTimes (down : List Step) : List Rat := (acceptedPrefix down none).map Step.t
 
+/-- `TList` after the upward direction: `[T0]` with the accepted temperatures stored (appended / replacing) -/
+def upTable (dT T0 : Rat) (up : List Step) : List Rat := pushAll dT [T0] (upTimes T0 up)
+/-- `TList` after the downward direction -/
+def downTable (dT : Rat) (down : List Step) : List Rat := pushAll dT [] (downTimes down)
+
 /-- `TFullList` (`none` = `RuntimeError("Failed to trace phase")`) -/
-def fullTable (T0 : Rat) (up down : List Step) : Option (List Rat) :=
-  if 1 < (downTimes down).length then some ((downTimes down).reverse ++ T0 :: upTimes T0 up)
-  else if upTimes T0 up = [] then none
-  else some (T0 :: upTimes T0 up)
+def fullTable (dT T0 : Rat) (up down : List Step) : Option (List Rat) :=
+  if 1 < (downTable dT down).length then some ((downTable dT down).reverse ++ upTable dT T0 up)
+  else if (upTable dT T0 up).length ≤ 1 then none
+  else some (upTable dT T0 up)
 
-theorem runDirection_up (T0 : Rat) (up : List Step) :
-    runDirection up [T0] = T0 :: upTimes T0 up := by
-  rw [runDirection_eq]; simp [upTimes]
+theorem runDirection_up (dT T0 : Rat) (up : List Step) :
+    runDirection up [T0] dT = upTable dT T0 up := by
+  rw [runDirection_eq]; simp [upTable, upTimes]
 
-theorem runDirection_down (down : List Step) : runDirection down [] = downTimes down := by
-  rw [runDirection_eq]; simp [downTimes]
+theorem runDirection_down (dT : Rat) (down : List Step) :
+    runDirection down [] dT = downTable dT down := by
+  rw [runDirection_eq]; simp [downTable, downTimes]
 
 theorem tracePhase_eq (T0 TMin TMax dT : Rat) (up down : List Step) :
     tracePhase T0 TMin TMax dT up down =
-      match fullTable T0 up down with
+      match fullTable dT T0 up down with
       | none => .error .failedToTrace
       | some tf =>
         if ¬ (listMin tf T0 + 2 * dT < listMax tf T0 - 2 * dT) then .error .negativeRange
@@ -277,73 +582,171 @@ theorem tracePhase_eq (T0 TMin TMax dT : Rat) (up down : List Step) :
                    maxFlag := decide (listMax tf T0 < TMax) } := by
   unfold tracePhase fullTable
   simp only [runDirection_up, runDirection_down]
-  by_cases h1 : 1 < (downTimes down).length
+  by_cases h1 : 1 < (downTable dT down).length
   · simp [h1]
-  · by_cases h2 : upTimes T0 up = []
+  · by_cases h2 : (upTable dT T0 up).length ≤ 1
     · simp [h1, h2]
-    · have : ¬ ((upTimes T0 up).length + 1 ≤ 1) := by
-        cases h : upTimes T0 up with
-        | nil => exact absurd h h2
-        | cons a t => simp
-      simp [h1, h2, this]
+    · simp [h1, h2]
 
 theorem tracePhase_ok_iff (T0 TMin TMax dT : Rat) (up down : List Step) (r : Result) :
     tracePhase T0 TMin TMax dT up down = .ok r ↔
-      ∃ tf, fullTable T0 up down = some tf ∧
+      ∃ tf, fullTable dT T0 up down = some tf ∧
         listMin tf T0 + 2 * dT < listMax tf T0 - 2 * dT ∧
         r = { table := tf, minPossible := listMin tf T0 + 2 * dT,
               minFlag := decide (TMin < listMin tf T0),
               maxPossible := listMax tf T0 - 2 * dT,
               maxFlag := decide (listMax tf T0 < TMax) } := by
   rw [tracePhase_eq]
-  cases h : fullTable T0 up down with
+  cases h : fullTable dT T0 up down with
   | none => simp
   | some tf =>
     by_cases hr : listMin tf T0 + 2 * dT < listMax tf T0 - 2 * dT
     · simp [hr, eq_comm]
     · simp [hr]
 
-theorem fullTable_ne_nil {T0 : Rat} {up down : List Step} {tf : List Rat}
-    (h : fullTable T0 up down = some tf) : tf ≠ [] := by
-  unfold fullTable at h
-  split at h
-  · cases h; simp
-  · split at h
-    · cases h
-    · cases h; simp
+/-- the upward list ends at the last accepted upward temperature (at `T0` if there is none) -/
+theorem getLast?_upTable (dT T0 : Rat) (up : List Step) :
+    (upTable dT T0 up).getLast? = (upTimes T0 up).getLast?.or (some T0) := by
+  unfold upTable; rw [getLast?_pushAll]; rfl
 
-theorem T0_mem_fullTable {T0 : Rat} {up down : List Step} {tf : List Rat}
-    (h : fullTable T0 up down = some tf) : T0 ∈ tf := by
+theorem getLast?_downTable (dT : Rat) (down : List Step) :
+    (downTable dT down).getLast? = (downTimes down).getLast? := by
+  unfold downTable; rw [getLast?_pushAll]; simp
+
+theorem upTable_ne_nil (dT T0 : Rat) (up : List Step) : upTable dT T0 up ≠ [] := by
+  intro h
+  have := getLast?_upTable dT T0 up
+  rw [h] at this
+  cases h' : (upTimes T0 up).getLast? <;> simp [h'] at this
+
+theorem upTable_sublist (dT T0 : Rat) (up : List Step) :
+    (upTable dT T0 up).Sublist (T0 :: upTimes T0 up) := pushAll_sublist dT [T0] _
+
+theorem downTable_sublist (dT : Rat) (down : List Step) :
+    (downTable dT down).Sublist (downTimes down) := by
+  simpa [downTable] using pushAll_sublist dT [] (downTimes down)
+
+/-- number of stored upward nodes = `T0` + the appended accepted records -/
+theorem length_upTable (dT T0 : Rat) (up : List Step) :
+    (upTable dT T0 up).length = 1 + appended dT (some T0) (upTimes T0 up) := by
+  unfold upTable; rw [length_pushAll]; rfl
+
+theorem length_downTable (dT : Rat) (down : List Step) :
+    (downTable dT down).length = appended dT none (downTimes down) := by
+  unfold downTable; rw [length_pushAll]; simp
+
+theorem fullTable_ne_nil {dT T0 : Rat} {up down : List Step} {tf : List Rat}
+    (h : fullTable dT T0 up down = some tf) : tf ≠ [] := by
   unfold fullTable at h
   split at h
-  · cases h; simp
+  · cases h; simp [upTable_ne_nil]
   · split at h
     · cases h
-    · cases h; simp
+    · cases h; exact upTable_ne_nil _ _ _
+
+/-- `T0` stays in the upward list unless the FIRST upward record is a rounding step from `T0`
+(which then replaces `T0`). -/
+theorem T0_mem_upTable (dT T0 : Rat) (up : List Step)
+    (hfirst : ∀ s, up.head? = some s → dT / 100000000 ≤ |s.t - T0|) : T0 ∈ upTable dT T0 up := by
+  unfold upTable upTimes
+  cases up with
+  | nil => simp [acceptedPrefix]
+  | cons s rest =>
+    unfold acceptedPrefix
+    split
+    · have hs := hfirst s rfl
+      rw [List.map_cons, pushAll_cons]
+      have hp : push dT [T0] s.t = [T0, s.t] := by
+        have := push_concat dT [] T0 s.t
+        simp only [List.nil_append] at this
+        rw [this, if_neg (not_lt.2 hs)]; rfl
+      rw [hp]
+      exact (dropLast_prefix_pushAll dT [T0, s.t] _).subset (by simp)
+    · simp
+
+theorem T0_mem_fullTable {dT T0 : Rat} {up down : List Step} {tf : List Rat}
+    (h : fullTable dT T0 up down = some tf)
+    (hfirst : ∀ s, up.head? = some s → dT / 100000000 ≤ |s.t - T0|) : T0 ∈ tf := by
+  have := T0_mem_upTable dT T0 up hfirst
+  unfold fullTable at h
+  split at h
+  · cases h; simp [this]
+  · split at h
+    · cases h
+    · cases h; exact this
+
+theorem mem_upTable {dT T0 : Rat} {up : List Step} {x : Rat} (hx : x ∈ upTable dT T0 up) :
+    x = T0 ∨ x ∈ upTimes T0 up := by
+  rcases mem_pushAll hx with h | h
+  · left; simpa using h
+  · exact Or.inr h
+
+theorem mem_downTable {dT : Rat} {down : List Step} {x : Rat} (hx : x ∈ downTable dT down) :
+    x ∈ downTimes down := (downTable_sublist dT down).subset hx
 
 /-- every table entry is `T0` or the `t` of an accepted record -/
-theorem mem_fullTable {T0 : Rat} {up down : List Step} {tf : List Rat}
-    (h : fullTable T0 up down = some tf) (x : Rat) (hx : x ∈ tf) :
+theorem mem_fullTable {dT T0 : Rat} {up down : List Step} {tf : List Rat}
+    (h : fullTable dT T0 up down = some tf) (x : Rat) (hx : x ∈ tf) :
     x = T0 ∨ x ∈ upTimes T0 up ∨ x ∈ downTimes down := by
   unfold fullTable at h
   split at h
   · cases h
-    simp only [List.mem_append, List.mem_reverse, List.mem_cons] at hx
-    tauto
+    simp only [List.mem_append, List.mem_reverse] at hx
+    rcases hx with hx | hx
+    · exact Or.inr (Or.inr (mem_downTable hx))
+    · rcases mem_upTable hx with h | h
+      · exact Or.inl h
+      · exact Or.inr (Or.inl h)
   · split at h
     · cases h
     · cases h
-      simp only [List.mem_cons] at hx
-      tauto
+      rcases mem_upTable hx with h | h
+      · exact Or.inl h
+      · exact Or.inr (Or.inl h)
 
-theorem upTimes_mem_fullTable {T0 : Rat} {up down : List Step} {tf : List Rat}
-    (h : fullTable T0 up down = some tf) (x : Rat) (hx : x ∈ upTimes T0 up) : x ∈ tf := by
+theorem upTable_subset_fullTable {dT T0 : Rat} {up down : List Step} {tf : List Rat}
+    (h : fullTable dT T0 up down = some tf) (x : Rat) (hx : x ∈ upTable dT T0 up) : x ∈ tf := by
   unfold fullTable at h
   split at h
   · cases h; simp [hx]
   · split at h
     · cases h
-    · cases h; simp [hx]
+    · cases h; exact hx
+
+/-- the temperature of the LAST accepted upward record is in the table (earlier ones may have been replaced) -/
+theorem lastUp_mem_fullTable {dT T0 : Rat} {up down : List Step} {tf : List Rat}
+    (h : fullTable dT T0 up down = some tf) (x : Rat) (hx : (upTimes T0 up).getLast? = some x) :
+    x ∈ tf := by
+  refine upTable_subset_fullTable h x (List.mem_of_getLast? ?_)
+  rw [getLast?_upTable, hx]; rfl
+
+/-- the temperature of the last accepted downward record is in the table, provided at least two
+downward nodes were stored (a single one is discarded) -/
+theorem lastDown_mem_fullTable {dT T0 : Rat} {up down : List Step} {tf : List Rat}
+    (h : fullTable dT T0 up down = some tf) (h2 : 1 < (downTable dT down).length)
+    (x : Rat) (hx : (downTimes down).getLast? = some x) : x ∈ tf := by
+  have hm : x ∈ downTable dT down := List.mem_of_getLast? (by rw [getLast?_downTable, hx])
+  unfold fullTable at h
+  rw [if_pos h2] at h
+  cases h; simp [hm]
+
+/-- tracing fails iff at most one downward and no upward node (besides `T0`) is stored, i.e. iff the
+accepted temperatures of each direction form a chain of rounding steps (from `T0` in the upward one) -/
+theorem fullTable_eq_none_iff (dT T0 : Rat) (up down : List Step) :
+    fullTable dT T0 up down = none ↔
+      (downTimes down).IsChain (fun a b => |b - a| < dT / 100000000) ∧
+      (T0 :: upTimes T0 up).IsChain (fun a b => |b - a| < dT / 100000000) := by
+  rw [← appended_none_le_one_iff, ← appended_some_eq_zero_iff, ← length_downTable]
+  have hu := length_upTable dT T0 up
+  unfold fullTable
+  by_cases h1 : 1 < (downTable dT down).length
+  · simp only [h1, if_true, reduceCtorEq, false_iff, not_and]
+    intro h; omega
+  · by_cases h2 : (upTable dT T0 up).length ≤ 1
+    · simp only [h1, h2, if_false, if_true, true_iff]
+      omega
+    · simp only [h1, h2, if_false, reduceCtorEq, false_iff, not_and]
+      intro _; omega
 
 theorem upTimes_sublist (T0 : Rat) (up : List Step) : (upTimes T0 up).Sublist (up.map Step.t) :=
   ((acceptedPrefix_prefix up _).map Step.t).sublist
@@ -363,30 +766,79 @@ theorem mem_downTimes {down : List Step} {x : Rat} (hx : x ∈ downTimes down) :
   exact ⟨s, (acceptedPrefix_prefix down _).subset hs, (acceptedPrefix_good _ _ s hs).1,
     (acceptedPrefix_good _ _ s hs).2, rfl⟩
 
-/-- with monotone integrator times the assembled table is strictly increasing -/
-theorem fullTable_sorted {T0 : Rat} {up down : List Step} {tf : List Rat}
-    (h : fullTable T0 up down = some tf)
+/-- with monotone integrator times the assembled table is strictly increasing (the replace rule keeps
+this: the stored list is a sublist of `T0 ::` the accepted temperatures) -/
+theorem fullTable_sorted {dT T0 : Rat} {up down : List Step} {tf : List Rat}
+    (h : fullTable dT T0 up down = some tf)
     (hup : (up.map Step.t).Pairwise (· < ·)) (hup0 : ∀ s ∈ up, T0 < s.t)
     (hdown : (down.map Step.t).Pairwise (· > ·)) (hdown0 : ∀ s ∈ down, s.t < T0) :
     tf.Pairwise (· < ·) := by
-  have hU : (T0 :: upTimes T0 up).Pairwise (· < ·) := by
+  have hU0 : (T0 :: upTimes T0 up).Pairwise (· < ·) := by
     refine List.pairwise_cons.2 ⟨fun x hx => ?_, hup.sublist (upTimes_sublist T0 up)⟩
     obtain ⟨s, hs, _, _, rfl⟩ := mem_upTimes hx
     exact hup0 s hs
+  have hU : (upTable dT T0 up).Pairwise (· < ·) := hU0.sublist (upTable_sublist dT T0 up)
+  have hge : ∀ b ∈ upTable dT T0 up, T0 ≤ b := by
+    intro b hb
+    rcases mem_upTable hb with rfl | hb
+    · exact le_rfl
+    · obtain ⟨s', hs', _, _, rfl⟩ := mem_upTimes hb
+      exact le_of_lt (hup0 s' hs')
   unfold fullTable at h
   split at h
   · cases h
     refine List.pairwise_append.2 ⟨?_, hU, fun a ha b hb => ?_⟩
     · rw [List.pairwise_reverse]
-      exact (hdown.sublist (downTimes_sublist down)).imp (fun h => h)
-    · obtain ⟨s, hs, _, _, rfl⟩ := mem_downTimes (List.mem_reverse.1 ha)
-      rcases List.mem_cons.1 hb with rfl | hb
-      · exact hdown0 s hs
-      · obtain ⟨s', hs', _, _, rfl⟩ := mem_upTimes hb
-        exact lt_trans (hdown0 s hs) (hup0 s' hs')
+      exact ((hdown.sublist (downTimes_sublist down)).sublist (downTable_sublist dT down)).imp
+        (fun h => h)
+    · obtain ⟨s, hs, _, _, rfl⟩ := mem_downTimes (mem_downTable (List.mem_reverse.1 ha))
+      exact lt_of_lt_of_le (hdown0 s hs) (hge b hb)
   · split at h
     · cases h
     · cases h; exact hU
+
+/-- upward list: consecutive nodes at least `1e-8·dT` apart (monotone integrator times above `T0`) -/
+theorem upTable_sep (dT T0 : Rat) (up : List Step)
+    (hup : (up.map Step.t).Pairwise (· < ·)) (hup0 : ∀ s ∈ up, T0 < s.t) :
+    (upTable dT T0 up).IsChain (fun a b => a + dT / 100000000 ≤ b) := by
+  have := pushAll_sep dT 1 (Or.inl rfl) [T0] (upTimes T0 up) (List.isChain_singleton _)
+    (fun l hl x hx => by
+      simp only [List.getLast?_singleton, Option.some.injEq] at hl
+      subst hl
+      obtain ⟨s, hs, _, _, rfl⟩ := mem_upTimes hx
+      have := hup0 s hs
+      linarith)
+    ((hup.sublist (upTimes_sublist T0 up)).imp (fun h => by linarith))
+  exact this.imp (fun a b h => by unfold Sep at h; linarith)
+
+/-- downward list (in storage order, i.e. descending): consecutive nodes at least `1e-8·dT` apart -/
+theorem downTable_sep (dT : Rat) (down : List Step)
+    (hdown : (down.map Step.t).Pairwise (· > ·)) :
+    (downTable dT down).IsChain (fun a b => b + dT / 100000000 ≤ a) := by
+  have := pushAll_sep dT (-1) (Or.inr rfl) [] (downTimes down) List.isChain_nil
+    (fun l hl => by simp at hl)
+    ((hdown.sublist (downTimes_sublist down)).imp (fun h => by linarith))
+  exact this.imp (fun a b h => by unfold Sep at h; linarith)
+
+/-- the assembled table is (reversed downward list, possibly dropped) ++ (upward list), and inside each
+of the two pieces consecutive nodes are at least `1e-8·dT` apart.  Nothing is claimed about the junction
+(first downward node against the head of the upward list). -/
+theorem fullTable_sep {dT T0 : Rat} {up down : List Step} {tf : List Rat}
+    (h : fullTable dT T0 up down = some tf)
+    (hup : (up.map Step.t).Pairwise (· < ·)) (hup0 : ∀ s ∈ up, T0 < s.t)
+    (hdown : (down.map Step.t).Pairwise (· > ·)) :
+    ∃ lo, tf = lo ++ upTable dT T0 up ∧ (lo = [] ∨ lo = (downTable dT down).reverse) ∧
+      lo.IsChain (fun a b => a + dT / 100000000 ≤ b) ∧
+      (upTable dT T0 up).IsChain (fun a b => a + dT / 100000000 ≤ b) := by
+  have hU := upTable_sep dT T0 up hup hup0
+  unfold fullTable at h
+  split at h
+  · cases h
+    exact ⟨_, rfl, Or.inr rfl, List.isChain_reverse.2 (downTable_sep dT down hdown), hU⟩
+  · split at h
+    · cases h
+    · cases h
+      exact ⟨[], rfl, Or.inl rfl, List.isChain_nil, hU⟩
 
 /-! ## the coarse loop of `findCriticalTemperature` -/
 
